@@ -28,7 +28,9 @@ CONSTANTS
   \* over-approximation of all designs that the conformance walk follows on the real code)
   LoadInvalidates,    \* _load_from_state_dict
   ApplyInvalidates,   \* _apply (dtype / device conversion)
-  TrainInvalidates,   \* train(True)
+  TrainInvalidates,   \* train(True) while using_cache is on
+  TrainInvalidatesOff,\* train(True) while using_cache is off (use_cache(False) does not empty the cache)
+  CachedWhenFrozen,   \* TRUE = the cached path is also taken in training mode while the parameters are frozen
   CopyDrops,          \* copy.deepcopy: TRUE = the copy starts with an empty cache, FALSE = the cached
                       \* tensors are deep-copied with the module (which autograd refuses for non-leaves)
   WithInplace         \* extend the alphabet by in-place parameter edits in eval mode
@@ -65,7 +67,7 @@ Invalidate == cw' = None /\ ci' = None /\ cl' = None
 
 Train ==
   /\ training' = TRUE
-  /\ \E inv \in TrainInvalidates : IF inv THEN Invalidate ELSE UNCHANGED <<cw, ci, cl>>
+  /\ \E inv \in (IF usingCache THEN TrainInvalidates ELSE TrainInvalidatesOff) : IF inv THEN Invalidate ELSE UNCHANGED <<cw, ci, cl>>
   /\ res' = [k |-> "train"]
   /\ UNCHANGED <<usingCache, dt, frozenP>>
 
@@ -98,7 +100,7 @@ Outcomes == {"fresh", "stale", "raise_dtype", "raise_graph", "raise_inplace", "p
 \* o (the outcome relative to recomputing without the cache) and `cached` are parameters of
 \* the action so that they appear in the labels of the dumped state graph
 Call(dir, bw, o, cached) ==
-  /\ cached = (~training /\ usingCache)
+  /\ \E fz \in CachedWhenFrozen : cached = (usingCache /\ (~training \/ (fz /\ frozenP)))
   /\ IF cached
      THEN \* _check_forward_cache / _check_inverse_cache: fill what is missing (three-way if/elif)
           LET m0 == IF dir = "fwd" THEN cw ELSE ci
